@@ -14,6 +14,7 @@
 From NV Require Import Model.Base Model.Diag Model.RuleChecks Gen.RuleChecks Model.Engine Model.RegistryOrder Gen.Registry.
 From NV Require Import Proofs.EngineProofs Proofs.RuleChecksProofs Proofs.RuleChecksProofs2 Proofs.RuleChecksLift.
 From NV Require Import Proofs.RuleChecksSpacing Proofs.RuleChecksSpacing3 Proofs.SpacingTotal Proofs.RuleChecksSpacing2.
+From NV Require Import Model.CounterBase Gen.MoreChecks Proofs.MoreChecksProofs.
 Local Open Scope Z_scope.
 
 (* the full property, over the components that are not all modelled (kept visible, not proved) *)
@@ -27,7 +28,8 @@ Definition C02_statement (program : Type) (wf : program -> Prop) (render : progr
     cli_verdict ds = s "Error!" /\ cli_exit [Ok ds] <> 0.
 
 Definition proved_operators : list string :=
-  ["S05"; "L01"; "S03"; "S04"; "S07"; "S08"; "W01"; "W03"; "W04"; "W05"; "W06"; "W07"; "W08"; "W09"; "W10"; "W12"; "W13"; "W14"; "W15"; "W17"]%string.
+  ["S05"; "L01"; "S03"; "S04"; "S07"; "S08"; "W01"; "W03"; "W04"; "W05"; "W06"; "W07"; "W08"; "W09"; "W10"; "W12"; "W13"; "W14"; "W15"; "W17";
+   "T01"; "T02"; "T03"; "T04"; "S01"; "S02"; "S06"; "S11"; "O07"]%string.
 
 (* ---- S05 ternary *)
 Theorem C02_partial_S05 : forall toks scope v i t,
@@ -194,6 +196,50 @@ Theorem C02_partial_W15 : forall (toks : list token) (scope i : Z) (ts : token),
     (In (s "MIXED_SPACE_TAB", t_line ts, t_col ts) E \/ has_code (s "MIXED_SPACE_TAB") E).
 Proof. exact check_spacing_space_tab_total. Qed.
 Print Assumptions C02_partial_W15.
+
+(* ---- second batch (Gen/MoreChecks.v, tools/translate_more.py): dependent checks, `_given_trace` = the primary they depend on
+   matched the statement *)
+(* T01-T04: struct / union / enum / typedef keyword first in a statement of a .c file, outside a user-defined type *)
+Theorem C02_partial_T01_T04_given_trace : forall toks scope v k tk,
+  leading toks ws_no_nl k -> peek toks (Z.of_nat k) = Some tk ->
+  str_in (t_type tk) utype_keywords = true -> str_in (v_scope_name v) utype_scopes = false ->
+  exists E, check_utype_forbidden toks scope (s ".c") v = Ok (E, v) /\ In (s "FORBIDDEN_" ++ t_type tk, t_line tk, t_col tk) E.
+Proof. exact utype_forbidden_in_c. Qed.
+Print Assumptions C02_partial_T01_T04_given_trace.
+
+(* S01, S02: `for` / `switch` reached by CheckControlStatement's scan (before any `(`, `;`, line end) *)
+Theorem C02_partial_S01_S02_given_trace : forall l0 tf rest scope v,
+  forallb inert_c l0 = true -> str_in (t_type tf) control_forbidden_cs = true ->
+  exists E, check_control_statement (l0 ++ tf :: rest) scope v = Ok (E, v) /\ In (s "FORBIDDEN_CS", t_line tf, t_col tf) E.
+Proof. exact control_forbidden_cs_reported. Qed.
+Print Assumptions C02_partial_S01_S02_given_trace.
+
+(* S06: an assignment operator inside the parentheses of the condition, before any of them closes *)
+Theorem C02_partial_S06_given_trace : forall l0 lp l1 ta rest scope v,
+  forallb inert_c l0 = true -> t_type lp = ty_lpar -> forallb inert_n l1 = true -> str_in (t_type ta) control_assigns = true ->
+  exists E, check_control_statement (l0 ++ lp :: l1 ++ ta :: rest) scope v = Ok (E, v) /\ In (s "ASSIGN_IN_CONTROL", t_line ta, t_col ta) E.
+Proof. exact control_assign_reported. Qed.
+Print Assumptions C02_partial_S06_given_trace.
+
+(* S11: `return` followed (after blanks) by something that is neither `;` nor `(` *)
+Theorem C02_partial_S11_given_trace : forall l0 tr rest scope v tx,
+  forallb inert_e l0 = true -> t_type tr = ty_return ->
+  peek (l0 ++ tr :: rest) (skip_ws (l0 ++ tr :: rest) (zlen l0 + 1)) = Some tx ->
+  str_eqb (t_type tx) ty_semi = false -> str_eqb (t_type tx) ty_lpar = false ->
+  exists E, check_expression_statement (l0 ++ tr :: rest) scope v = Ok (E, v) /\ In (s "RETURN_PARENTHESIS", t_line tx, t_col tx) E.
+Proof. exact return_parenthesis_reported. Qed.
+Print Assumptions C02_partial_S11_given_trace.
+
+(* O07: a keyword directly followed by a token that is no blank, line end, `)` or comment (the check ends normally or with
+   skip_nest's CParsingError: C05_check_expression_statement_outcomes) *)
+Theorem C02_partial_O07_given_trace : forall l0 tk rest scope v tn E v',
+  forallb inert_e l0 = true -> str_in (t_type tk) expression_kw = true ->
+  str_in (t_type tk) [ty_semi; ty_nl] = false ->
+  peek (l0 ++ tk :: rest) (zlen l0 + 1) = Some tn -> str_in (t_type tn) after_kw_ok = false ->
+  check_expression_statement (l0 ++ tk :: rest) scope v = Ok (E, v') ->
+  In (s "SPACE_AFTER_KW", t_line tk, t_col tk) E.
+Proof. exact space_after_kw_reported. Qed.
+Print Assumptions C02_partial_O07_given_trace.
 
 (* ---- known findings, as far as the modelled checks show them *)
 (* W05 on a line holding a single token (`    {`): the model of CheckSpacing prints SPACE_EMPTY_LINE and no SPACE_REPLACE_TAB
